@@ -121,8 +121,8 @@ Definition range_around_float (x : fl) (i : Z) : res (fl * fl) :=
   | _ => Err 5
   end.
 
-Definition f114 : fl := decode 4607813167907717693.     (* 1.14 = 0x3FF23D70A3D70A3D *)
-Definition f130 : fl := decode 4608533743848199373.     (* 1.3  = 0x3FF4CCCCCCCCCCCD *)
+Definition f114 : fl := decode 4607812922747849277.     (* 1.14 = 0x3FF23D70A3D70A3D *)
+Definition f130 : fl := decode 4608533498688228557.     (* 1.3  = 0x3FF4CCCCCCCCCCCD *)
 
 (* ---------------------------------------------------------------------------------------------- *)
 (* class ListWithAdjustments: [orig] are the keys of the underlying sorted list (never changed),
